@@ -334,7 +334,7 @@ const HAND_STRINGS: [&str; 44] = ["", "A", "AB5", "ABC", "ABC5", "ABC+5", "ABC-5
 
 pub fn run(ctx: &Ctx) -> Value {
     let mut rng = Rng::new(ctx.seed ^ 0x16);
-    let mut tw = Tw::new(&ctx.out, "Trace_TzRead", ctx.t(160, 1_500));
+    let mut tw = Tw::new(&ctx.out, "Trace_TzRead", ctx.t(250, 1_500));
     let (mut n_base, mut n_mut, mut n_sys, mut n_rand, mut n_gen, mut n_mutstr) = (0usize, 0usize, 0usize, 0usize, 0usize, 0usize);
     // ---- conforming files from the harness's own writer and their structured mutations ----------------------
     for (m, vers) in base_models() {
@@ -345,7 +345,7 @@ pub fn run(ctx: &Ctx) -> Value {
                 tw.emit(tzif_event(&format!("base:v{}:{}", ver, if fat { "fat" } else { "slim" }), &b, false, true));
                 n_base += 1;
                 if fat && ctx.quick() { continue; } // the 32-bit block of a v2+ file is skipped by the reader: mutate the slim form only in the quick tier
-                for (k, mb) in mutations(&b, &lay, ver, &mut rng, ctx.t(12, 150)) { tw.emit(tzif_event(&k, &mb, false, false)); n_mut += 1; }
+                for (k, mb) in mutations(&b, &lay, ver, &mut rng, ctx.t(40, 150)) { tw.emit(tzif_event(&k, &mb, false, false)); n_mut += 1; }
             }
         }
     }
@@ -362,10 +362,10 @@ pub fn run(ctx: &Ctx) -> Value {
         }
     }
     // ---- random bytes -------------------------------------------------------------------------------------------
-    for _ in 0..ctx.t(300, 6_000) { tw.emit(tzif_event("random", &random_bytes(&mut rng), false, false)); n_rand += 1; }
+    for _ in 0..ctx.t(800, 6_000) { tw.emit(tzif_event("random", &random_bytes(&mut rng), false, false)); n_rand += 1; }
     // ---- TZ strings: grammar-generated (must be accepted with exactly the written rule) and mutated ------------
     for s in HAND_STRINGS { for v3 in [false, true] { tw.emit(tzstr_event("rule", s.as_bytes(), v3, false)); n_mutstr += 1; } }
-    for i in 0..ctx.t(500, 12_000) {
+    for i in 0..ctx.t(1_000, 12_000) {
         let g = gen_rule(&mut rng, true, i % 3 != 0);
         tw.emit(tzstr_event("rule", g.text.as_bytes(), g.v3, true));
         n_gen += 1;
